@@ -6,6 +6,7 @@ import StorageModel.C15.Paging
 import StorageModel.C15.Order
 import StorageModel.C15.Extended
 import StorageModel.C15.Layout
+import StorageModel.C15.Depth
 /- model driver for C15: `run spec` reads case lines on stdin and prints one output line per case
    (spec = false: the engine model's output; spec = true: the spec's verdict).
 
@@ -397,6 +398,139 @@ def specItem (ents : Ents) : Item → String
 def itemsOut (f : Item → String) (items : List (String × Item)) : String :=
   "K " ++ " ".intercalate (items.map fun (src, it) => src ++ "=" ++ f it)
 
+
+/-! ## three-level chains (`t<c><g><i><shape>` cases; C15/Depth.lean) -/
+section chain
+open StorageModel.C15.Depth
+
+structure ChainCfg where
+  lv : Chain
+  base : List String
+  pc : List String
+  pg : List String
+
+def parseChain (tok : String) : Option ChainCfg :=
+  match tok.toList with
+  | ['t', c, g, i, sh] =>
+    let lv : Chain := [⟨c == 'x', true⟩, ⟨g == 'x', i == 'i'⟩]
+    match sh with
+    | '0' => some ⟨lv, ["u"], ["ext"], ["ext", "g"]⟩
+    | '1' => some ⟨lv, ["u"], ["c1"], ["c1", "d", "g"]⟩
+    | '2' => some ⟨lv, ["u", "v"], ["x", "y"], ["x", "y", "z"]⟩
+    | _ => none
+  | _ => none
+
+def parseChilds (s : String) : Option (List (Option Nat)) := (s.splitOn ":").mapM parseChild
+
+def parseDOp (s : String) : Option DOp :=
+  match s.splitOn "/" with
+  | ["c", sel, id, name, roles, child] => do
+    pure (.create (← parseNat? sel) (← parseNat? id) ⟨← parseNat? name, ← parseRoles roles, ← parseChilds child⟩)
+  | ["u", sel, id, name, roles, child, chk] => do
+    pure (.update (← parseNat? sel) (← parseNat? id) ⟨← parseNat? name, ← parseRoles roles, ← parseChilds child⟩ (parseChk chk))
+  | ["d", sel, id] => do pure (.delete (← parseNat? sel) (← parseNat? id))
+  | _ => none
+
+def parseDHist (s : String) : Option (List (List DOp)) :=
+  (s.splitOn ";").mapM fun tx => (tx.splitOn ",").mapM parseDOp
+
+def dErrStr : DErr → String
+  | .blank => "blank"
+  | .exists_ => "exists"
+  | .notfound => "notfound"
+  | .dupName => "dup:name"
+  | .nonnull => "nonnull"
+  | .dupLevel 0 => "dup:code"
+  | .dupLevel _ => "dup:tag"
+
+def foundD (k : Nat) : Option (Val × List Val × List (Option Val)) → String
+  | none => "-"
+  | some (n, r, fs) => s!"{n}/{natList r}/" ++ (if k == 0 then "_" else ":".intercalate (fs.map optVal))
+
+def storeRange : List Nat := [0, 1, 2]
+
+/-- the observations of one state: `find` / `present` / `query` / `sorted` / `valid` are the model's
+    (scan loops, bucket lookups) or the specification's (the `owns` predicate over the table) -/
+def observeD (cfg : ChainCfg) (st : DSt)
+    (find : Nat → Nat → Option (Val × List Val × List (Option Val))) (present : Nat → Nat → Bool)
+    (query : Nat → Filter → List Nat) (sorted : Nat → List Nat) (valid : Nat → List Nat) : String :=
+  let f := " ".intercalate <| storeRange.flatMap fun k => idRange.map fun id => s!"{k}.{id}=" ++ foundD k (find k id)
+  let p := " ".intercalate <| storeRange.flatMap fun k => idRange.map fun id =>
+    s!"{k}.{id}=" ++ (if present k id then "P" else "-")
+  let q := " ".intercalate <| storeRange.flatMap fun k =>
+    (filters.map fun (qn, fl) => s!"{k}.{qn}={natList (query k fl)}") ++ [s!"{k}.s={natList (sorted k)}"]
+  let i := " ".intercalate <| storeRange.flatMap fun k =>
+    [s!"{k}.i={natList (query k .tt)}", s!"{k}.v={natList (valid k)}"]
+  let lx (tag : String) (m : Map Val Id) := valRange.map fun v => s!"{tag}.{v}={optId (mget m v)}"
+  let x := " ".intercalate <|
+    lx "n" st.nameIdx ++
+    (valRange.map fun v => s!"r.{v}={natList (canon ((st.rolesIdx.filter (·.1 == v)).map (·.2)))}") ++
+    lx "c" (st.lidx.getD 0 []) ++ lx "g" (st.lidx.getD 1 [])
+  -- dump
+  let r := "/" ++ joinPath cfg.base ++ "/"
+  let idxLines (nm : String) (m : Map Val Id) : List String :=
+    (r ++ s!"indexes/things/{nm}/") :: ((canon (mkeys m)).flatMap fun v =>
+      match mget m v with
+      | none => []
+      | some id => [r ++ s!"indexes/things/{nm}/{valS v}={idS id}"])
+  let fixed := ((prefixesOf cfg.base).map fun q => "/" ++ joinPath q ++ "/") ++ [r ++ "indexes/", r ++ "indexes/things/", r ++ "indexes/things/roles/", r ++ "things/"]
+  let roleVals := canon (st.rolesIdx.map (·.1))
+  let roles := roleVals.flatMap fun rv =>
+    (r ++ s!"indexes/things/roles/{roleS rv}/") ::
+      ((canon ((st.rolesIdx.filter (·.1 == rv)).map (·.2))).map fun id => r ++ s!"indexes/things/roles/{roleS rv}/\\x05{idS id}=")
+  let gIdx := isIdx cfg.lv 1
+  let ents := (canon (mkeys st.ents)).flatMap fun id =>
+    match mget st.ents id with
+    | none => []
+    | some e =>
+      let b := r ++ s!"things/{idS id}/"
+      let sub (qp : List String) : String := b ++ joinPath qp ++ "/"
+      [b, b ++ "name=\\x05" ++ valS e.name, b ++ "roles/"] ++ (e.roles.map fun rr => b ++ "roles/\\x05" ++ roleS rr ++ "=") ++
+      (if e.present 1 then (prefixesOf cfg.pc).map sub ++ [sub cfg.pc ++ "code=" ++ fieldP (e.fieldAt 0)] else []) ++
+      (if e.present 2 then (prefixesOf cfg.pg).map sub ++ [sub cfg.pg ++ "tag=" ++ fieldP (e.fieldAt 1)] else [])
+  let d := renderDump (fixed ++ idxLines "name" st.nameIdx ++ idxLines "code" (st.lidx.getD 0 []) ++
+    (if gIdx then idxLines "tag" (st.lidx.getD 1 []) else []) ++ roles ++ ents)
+  s!"F {f} P {p} Q {q} I {i} X {x} D {d}"
+
+def observeModelD (cfg : ChainCfg) (st : DSt) : String :=
+  observeD cfg st (fun k id => findById cfg.lv st k id) (fun k id => isPresent st k id)
+    (fun k f => queryIdsD cfg.lv st k f) (fun k => querySortedD cfg.lv st k .tt) (fun k => iterateValidIdsD cfg.lv st k .tt)
+
+def specSorted (ents : DEnts) (ids : List Nat) : List Nat :=
+  ids.foldl (fun acc id => insRowD ⟨ents, [], [], []⟩ id acc) []
+
+def observeSpecD (cfg : ChainCfg) (ents : DEnts) : String :=
+  observeD cfg (deriveD cfg.lv ents) (fun k id => specFindById cfg.lv ents k id)
+    (fun k id => match mget ents id with | some e => e.present k | none => false)
+    (fun k f => specQueryIds cfg.lv ents k f false) (fun k => specSorted ents (specQueryIds cfg.lv ents k .tt false))
+    (fun k => specQueryIds cfg.lv ents k .tt (isExt cfg.lv k))
+
+def runOpsD {σ : Type} (f : σ → DOp → Except DErr σ) (st : σ) : List DOp → List String → (Option σ × List String)
+  | [], acc => (some st, acc.reverse)
+  | op :: rest, acc =>
+    match f st op with
+    | .ok st' => runOpsD f st' rest ("ok" :: acc)
+    | .error e => (none, (dErrStr e :: acc).reverse)
+
+def runHistD {σ : Type} (f : σ → DOp → Except DErr σ) (obs : σ → String) (st : σ) : List (List DOp) → List String → List String
+  | [], acc => acc.reverse
+  | tx :: rest, acc =>
+    let (r, res) := runOpsD f st tx []
+    let st' := r.getD st
+    runHistD f obs st' rest ((",".intercalate res ++ (if r.isSome then " commit " else " abort ") ++ obs st') :: acc)
+
+def chainStep (spec : Bool) (line : String) : String :=
+  match splitSp line with
+  | [tok, h] =>
+    match parseChain tok, parseDHist h with
+    | some cfg, some hist =>
+      if spec then " ;; ".intercalate (runHistD (specStepD cfg.lv) (observeSpecD cfg) ([] : DEnts) hist [])
+      else " ;; ".intercalate (runHistD (stepD cfg.lv) (observeModelD cfg) (DSt.init cfg.lv) hist [])
+    | _, _ => "bad-case"
+  | _ => "bad-case"
+
+end chain
+
 /-- model side: the stores over real bucket trees (`stepC`, C15/Layout.lean) with the case's shape.
     `g`: A2 registered before A1 — the state does not depend on the order
     (`stepOpXOrd_order_irrelevant`), the events are delivered in it. -/
@@ -442,6 +576,7 @@ def specStep (line : String) : String :=
     | _, _ => "bad-case"
   | _ => "bad-case"
 
-def run (spec : Bool) : IO Unit := forEachLine (if spec then specStep else step)
+def run (spec : Bool) : IO Unit :=
+  forEachLine fun line => if line.startsWith "t" then chainStep spec line else (if spec then specStep else step) line
 
 end StorageModel.Driver.C15
